@@ -299,6 +299,8 @@ def generate() -> str:
 
 
 EXTRA_SECTIONS: list = []
+from extract_hash import hash_facts  # noqa: E402  (M4 / C12)
+EXTRA_SECTIONS.append(hash_facts)
 
 
 def main(write: bool = True) -> int:
